@@ -14,6 +14,7 @@
      tm_ok s     no deadline is armed, or no silence is left
      realizes P p   the reader program P returns on the flat stream what the parser p (model/Prim.v) returns *)
 From CH Require Import gen.Consts model.Messages model.Stream proofs.StreamProofs.
+From CH Require Import model.Columns model.StreamCols proofs.ColumnsProofs2 proofs.StreamColsProofs.
 Open Scope N_scope.
 
 (* what the model takes from the regenerated tables *)
@@ -68,6 +69,21 @@ Theorem decode_chunk_independent : forall A (P : rd A) (p : parser A), realizes 
   to_res (rr_map fl (run_L orc H decomp P s)) = p (flatten (p_raw s)).
 Proof. exact (fun A P p => decode_chunk_independent_thm P p). Qed.
 Print Assumptions decode_chunk_independent.
+
+(* the column decoders are such programs, for every type tree, build and declared row count: DecodeState +
+   DecodeColumn through bufio and a connection that delivers the bytes in any segmentation, with any short reads,
+   return the column, the error and the unread input they return on the concatenated bytes *)
+Theorem column_decoders_are_reader_programs : forall b t n,
+  realizes (r_dec_column b t n) (dec_column b t n) /\ realizes (r_dec b t n) (dec b t n) /\
+  realizes (r_dec_state t) (dec_state t).
+Proof. intros b t n. split; [apply realizes_dec_column|split; [apply realizes_dec|apply realizes_dec_state]]. Qed.
+Print Assumptions column_decoders_are_reader_programs.
+
+Theorem column_decode_chunk_independent : forall b t n orc H decomp (s : prd bufio),
+  p_comp s = false -> tm_ok (p_raw s) ->
+  to_res (rr_map fl (run_L orc H decomp (r_dec_column b t n) s)) = dec_column b t n (flatten (p_raw s)).
+Proof. intros b t n. exact (decode_chunk_independent_thm (r_dec_column b t n) (dec_column b t n) (realizes_dec_column b t n)). Qed.
+Print Assumptions column_decode_chunk_independent.
 
 (* the parsers of L1 are such programs, and being one is preserved by bind, by rows-indexed loops and by loops whose
    fuel is the length of the input: every decoder built from them (L2-L4) is covered *)
